@@ -115,6 +115,16 @@ type frame struct {
 	curInstr         ssa.Instruction
 }
 
+// isLocal reports whether p addresses one of this frame's non-escaping locals.
+func (fr *frame) isLocal(p *value) bool {
+	for k := range fr.locals {
+		if p == &fr.locals[k] {
+			return true
+		}
+	}
+	return false
+}
+
 func (fr *frame) get(key ssa.Value) value {
 	switch key := key.(type) {
 	case nil:
@@ -201,6 +211,11 @@ func visitInstr(fr *frame, instr ssa.Instruction) continuation {
 		if instr.Op == token.ARROW {
 			fr.env[instr] = fr.i.W.chanRecv(fr.get(instr.X), instr.X.Type().Underlying().(*types.Chan).Elem(), instr.CommaOk)
 		} else {
+			if instr.Op == token.MUL && fr.i.W.m.race.on && len(fr.i.W.m.threads) > 1 {
+				if p, ok := fr.get(instr.X).(*value); ok && p != nil && !fr.isLocal(p) {
+					fr.i.W.access(p, false)
+				}
+			}
 			fr.env[instr] = unop(instr, fr.get(instr.X))
 		}
 
@@ -257,6 +272,11 @@ func visitInstr(fr *frame, instr ssa.Instruction) continuation {
 		fr.i.W.chanSend(fr.get(instr.Chan), fr.get(instr.X))
 
 	case *ssa.Store:
+		if fr.i.W.m.race.on && len(fr.i.W.m.threads) > 1 {
+			if p, ok := fr.get(instr.Addr).(*value); ok && p != nil && !fr.isLocal(p) {
+				fr.i.W.access(p, true)
+			}
+		}
 		store(mustDeref(instr.Addr.Type()), fr.get(instr.Addr).(*value), fr.get(instr.Val))
 
 	case *ssa.If:
